@@ -26,6 +26,9 @@ const (
 type gstate struct {
 	p   codecs.Params
 	off int // running fragment offset (M-JPEG, MPEG-1 audio)
+	// zeroMiddles: continuation fragments declare a zero size in their own headers (formats whose
+	// fragments carry a size field) while still carrying payload bytes
+	zeroMiddles bool
 }
 
 // grammar builds the payload of a packet with the given role and about n body bytes from the
@@ -517,6 +520,10 @@ func gMPEG4Audio(r *rand.Rand, ro role, n int, g *gstate) ([]byte, bool) {
 	one := max(1, min(n, maxAU))
 	switch ro {
 	case rStart, rMiddle:
+		if ro == rMiddle && g.zeroMiddles {
+			// a continuation fragment whose AU-header declares size 0, followed by payload bytes
+			return append(build([]int{0}, 0, 0), freshDense(r, one)...), false
+		}
 		return build([]int{one}, 0, 0), false
 	case rEnd, rSingle:
 		return build([]int{one}, 0, 0), true
